@@ -78,6 +78,13 @@ func c03Alphabet(forLoop bool) (items []func() *Node, reduced int) {
 	add(func() *Node {
 		return &Node{K: "each", Name: "w", E: &Expr{Op: "arr"}, Body: []*Node{nText("never")}, HasElse: true, Else: []*Node{nText("(e)"), {K: "continue"}, nText("dead")}}
 	})
+	if !forLoop {
+		// a nested loop over the same variable name: the outer element is back once the inner loop has ended
+		add(func() *Node {
+			return &Node{K: "if", E: eLit(vBool(true)), Body: []*Node{{K: "each", Name: "v", E: &Expr{Op: "arr", Kids: []*Expr{eLit(vInt(7)), eLit(vInt(8))}},
+				Body: []*Node{nText("("), nPrint(loopProp("iter")), nPrint(eVar("v")), nText(")")}}, nText("="), nPrint(eVar("v"))}}
+		})
+	}
 	add(func() *Node { return nText("B") })
 	reduced = len(items)
 	for _, cd := range conds[3:] {
